@@ -5,8 +5,8 @@ Import ListNotations.
 Open Scope R_scope.
 
 Definition ROOps : OOps R :=
-  {| o0 := 0; ohalf := / 2; oten := 10; ohuge := 10 ^ 300; oadd := Rplus; osub := Rminus; omul := Rmult; odiv := Rdiv;
-     oopp := Ropp; osqrt := sqrt; oabs := Rabs; oltb := Rltb;
+  {| o0 := 0; ohalf := / 2; oten := 10; ohuge := 10 ^ 40; oadd := Rplus; osub := Rminus; omul := Rmult; odiv := Rdiv;
+     oopp := Ropp; osqrt := sqrt; oabs := Rabs; oltb := Rltb; oleb := Rleb;
      osuml := fun l => fold_left Rplus l 0 |}.
 
 Notation omaxR := (omax ROOps).
@@ -166,6 +166,14 @@ Section Bisect.
   Let xn (lam : R) : list R := oc_xnew ROOps pr lam x g.
   Let vol (lam : R) : R := osum ROOps (xn lam).
   Let tol : R := l1l2tol pr.
+  Hypothesis tol_nonneg : 0 <= tol.
+
+  (* over R, with a non-negative tolerance, the "no representable midpoint" guard of fix bd6675c never fires *)
+  Lemma guard_false l1 l2 : tol < l2 - l1 -> oleb ROOps (/ 2 * (l1 + l2)) l1 || oleb ROOps l2 (/ 2 * (l1 + l2)) = false.
+  Proof.
+    intros T. cbn [oleb ROOps]. apply orb_false_iff.
+    split; (destruct (Rleb _ _) eqn:Q; [apply Rleb_true in Q; lra | reflexivity]).
+  Qed.
 
   (* the loop invariant and exit condition.  On exit:  l1 <= a <= b <= l2,  b - a <= tol,  the interval was
      halved k times, an end that moved carries its volume test, and the design bound to `xnew` is the update at
@@ -188,7 +196,8 @@ Section Bisect.
       split; [left; reflexivity|]. split; [left; reflexivity|]. left. repeat split; reflexivity.
     - cbn [bisect] in E. cbn [oltb osub oadd omul ohalf o0 ROOps] in E. fold tol in E.
       destruct (Rltb tol (l2 - l1)) eqn:T; [apply Rltb_true in T | apply Rltb_false in T].
-      + set (lmid := / 2 * (l1 + l2)) in *.
+      + rewrite (guard_false l1 l2 T) in E.
+        set (lmid := / 2 * (l1 + l2)) in *.
         assert (Hmid : l1 <= lmid <= l2) by (unfold lmid; lra).
         fold (xn lmid) in E. fold (vol lmid) in E.
         destruct (Rltb 0 (vol lmid - maxvol)) eqn:V; [apply Rltb_true in V | apply Rltb_false in V].
@@ -219,7 +228,7 @@ Section Bisect.
     - cbn in Hk. destruct fuel; cbn [bisect]; cbn [oltb osub ROOps]; fold tol;
         (destruct (Rltb tol (l2 - l1)) eqn:T; [apply Rltb_true in T; lra | discriminate]).
     - destruct fuel as [|fuel]; [lia|]. cbn [bisect]. cbn [oltb osub oadd omul ohalf o0 ROOps]. fold tol.
-      destruct (Rltb tol (l2 - l1)) eqn:T; [|discriminate].
+      destruct (Rltb tol (l2 - l1)) eqn:T; [|discriminate]. apply Rltb_true in T. rewrite (guard_false l1 l2 T).
       assert (Hp : 2 ^ k <> 0) by (apply pow_nonzero; lra).
       destruct (Rltb 0 _); apply IH; try lia.
       + replace ((l2 - / 2 * (l1 + l2)) / 2 ^ k) with ((l2 - l1) / 2 ^ S k) by (cbn [pow]; field; exact Hp). exact Hk.
@@ -322,19 +331,19 @@ Section Grow.
   Lemma grow_invariant fuel : forall l2 l2g xng,
     grow ROOps pr maxvol x g fuel l2 (xn l2) = GrowDone l2g xng ->
     xng = xn l2g /\ (exists k : nat, l2g = l2 * 10 ^ k) /\
-    (vol l2g <= maxvol \/ any_above ROOps (xn l2g) (oc_lower ROOps pr x) = false \/ 10 ^ 300 <= l2g).
+    (vol l2g <= maxvol \/ any_above ROOps (xn l2g) (oc_lower ROOps pr x) = false \/ 10 ^ 40 <= l2g).
   Proof.
     induction fuel as [|fuel IH]; intros l2 l2g xng E; cbn [grow] in E;
       cbn [oltb osub omul oten ohuge o0 ROOps] in E; fold (vol l2) in E.
     - destruct (Rltb 0 (vol l2 - maxvol)) eqn:T1; cbn [andb] in E.
       + destruct (any_above ROOps (xn l2) (oc_lower ROOps pr x)) eqn:T2; cbn [andb] in E.
-        * destruct (Rltb l2 (10 ^ 300)) eqn:T3; [discriminate|]. apply Rltb_false in T3.
+        * destruct (Rltb l2 (10 ^ 40)) eqn:T3; [discriminate|]. apply Rltb_false in T3.
           injection E as <- <-. split; [reflexivity|]. split; [exists 0%nat; cbn; lra | right; right; exact T3].
         * injection E as <- <-. split; [reflexivity|]. split; [exists 0%nat; cbn; lra | right; left; exact T2].
       + apply Rltb_false in T1. injection E as <- <-. split; [reflexivity|]. split; [exists 0%nat; cbn; lra | left; lra].
     - destruct (Rltb 0 (vol l2 - maxvol)) eqn:T1; cbn [andb] in E.
       + destruct (any_above ROOps (xn l2) (oc_lower ROOps pr x)) eqn:T2; cbn [andb] in E.
-        * destruct (Rltb l2 (10 ^ 300)) eqn:T3.
+        * destruct (Rltb l2 (10 ^ 40)) eqn:T3.
           -- fold (xn (l2 * 10)) in E. destruct (IH _ _ _ E) as [I1 [[k I2] I3]].
              split; [exact I1|]. split; [exists (S k); rewrite I2; cbn [pow]; ring | exact I3].
           -- apply Rltb_false in T3. injection E as <- <-. split; [reflexivity|]. split; [exists 0%nat; cbn; lra | right; right; exact T3].
@@ -342,23 +351,23 @@ Section Grow.
       + apply Rltb_false in T1. injection E as <- <-. split; [reflexivity|]. split; [exists 0%nat; cbn; lra | left; lra].
   Qed.
 
-  (* the loop ends after k steps as soon as l2 * 10^k >= 1e300 *)
-  Lemma grow_terminates : forall k fuel l2 xn0, 10 ^ 300 <= l2 * 10 ^ k -> (k <= fuel)%nat ->
+  (* the loop ends after k steps as soon as l2 * 10^k >= 1e40 *)
+  Lemma grow_terminates : forall k fuel l2 xn0, 10 ^ 40 <= l2 * 10 ^ k -> (k <= fuel)%nat ->
     grow ROOps pr maxvol x g fuel l2 xn0 <> GrowOutOfFuel.
   Proof.
     induction k as [|k IH]; intros fuel l2 xn0 Hk Hf.
     - cbn in Hk. destruct fuel; cbn [grow]; cbn [oltb ohuge ROOps];
-        (destruct (Rltb l2 (10 ^ 300)) eqn:T; [apply Rltb_true in T; lra | rewrite andb_false_r; discriminate]).
+        (destruct (Rltb l2 (10 ^ 40)) eqn:T; [apply Rltb_true in T; lra | rewrite andb_false_r; discriminate]).
     - destruct fuel as [|fuel]; [lia|]. cbn [grow]. cbn [oltb omul oten ohuge ROOps].
       destruct (_ && _ && _); [|discriminate]. apply IH; [|lia].
       replace (l2 * 10 * 10 ^ k) with (l2 * 10 ^ S k) by (cbn [pow]; ring). exact Hk.
   Qed.
 
   (* whenever the target volume is reachable from below within the move limits (sum of the lower bounds <= maxvol)
-     the grown multiplier -- unless it hit 1e300 -- gives a volume <= maxvol: the bisection starts bracketed *)
+     the grown multiplier -- unless it hit 1e40 -- gives a volume <= maxvol: the bisection starts bracketed *)
   Theorem grow_brackets fuel l2 l2g xng : in_box pr x -> 0 <= move pr -> length g = length x ->
     grow ROOps pr maxvol x g fuel l2 (xn l2) = GrowDone l2g xng ->
-    osum ROOps (oc_lower ROOps pr x) <= maxvol -> l2g < 10 ^ 300 ->
+    osum ROOps (oc_lower ROOps pr x) <= maxvol -> l2g < 10 ^ 40 ->
     xng = xn l2g /\ vol l2g <= maxvol.
   Proof.
     intros Hb Hm Hl E Hreach Hh. destruct (grow_invariant fuel l2 l2g xng E) as [I1 [_ [I3 | [I3 | I3]]]].
@@ -371,20 +380,20 @@ Section Grow.
   Qed.
 End Grow.
 
-Lemma growth_steps_exist (l2 : R) : 0 < l2 -> exists k : nat, 10 ^ 300 <= l2 * 10 ^ k.
+Lemma growth_steps_exist (l2 : R) : 0 < l2 -> exists k : nat, 10 ^ 40 <= l2 * 10 ^ k.
 Proof.
   intros Hl. set (pr0 := mkParams 0 0 0%nat (BScalar 0) (BScalar 0) 0 0 0 l2 0).
-  destruct (halvings_exist pr0 (10 ^ 300) Hl) as [k Hk]. cbn [l1l2tol pr0] in Hk.
+  destruct (halvings_exist pr0 (10 ^ 40) Hl) as [k Hk]. cbn [l1l2tol pr0] in Hk.
   exists k. assert (H2 : 0 < 2 ^ k) by (apply pow_lt; lra).
   assert (H10 : 2 ^ k <= 10 ^ k) by (apply pow_incr; lra).
-  assert (10 ^ 300 <= l2 * 2 ^ k).
+  assert (10 ^ 40 <= l2 * 2 ^ k).
   { apply Rmult_le_reg_r with (/ 2 ^ k); [apply Rinv_0_lt_compat; exact H2|].
     rewrite Rmult_assoc, Rinv_r by lra. unfold Rdiv in Hk. lra. }
   apply Rle_trans with (l2 * 2 ^ k); [assumption | apply Rmult_le_compat_l; lra].
 Qed.
 
 (* one OC step of the repaired code: bracket growing followed by bisection.  If the volume is reachable from below
-   within the move limits (sum of max(xmin, x-move) <= maxvol), the multiplier did not hit 1e300, and the lower end
+   within the move limits (sum of max(xmin, x-move) <= maxvol), the multiplier did not hit 1e40, and the lower end
    of the interval moved (the volume is reachable from above inside the interval), the new design is the update at
    one end of a final interval [a, b] of length <= l1l2tol with vol(b) <= maxvol < vol(a), and its volume differs
    from maxvol by at most vol(a) - vol(b) *)
@@ -393,7 +402,7 @@ Theorem oc_step_volume (pr : @oc_params R) maxvol (x g : list R) gfuel bfuel l2g
   0 <= l1init pr <= l2init pr ->
   grow ROOps pr maxvol x g gfuel (l2init pr) (oc_xnew ROOps pr (l2init pr) x g) = GrowDone l2g xng ->
   bisect ROOps pr maxvol x g bfuel (l1init pr) l2g (Some xng) = BisDone a b (Some xnew) ->
-  osum ROOps (oc_lower ROOps pr x) <= maxvol -> l2g < 10 ^ 300 -> a <> l1init pr ->
+  osum ROOps (oc_lower ROOps pr x) <= maxvol -> l2g < 10 ^ 40 -> a <> l1init pr ->
   let vol := fun lam => osum ROOps (oc_xnew ROOps pr lam x g) in
   l1init pr < a <= b /\ b - a <= l1l2tol pr /\
   (xnew = oc_xnew ROOps pr a x g \/ xnew = oc_xnew ROOps pr b x g) /\
@@ -492,6 +501,7 @@ Section Run.
           { induction fuel as [|fuel IHf]; intros l1 l2 last E; cbn [bisect] in E.
             - destruct (oltb ROOps _ _); [discriminate|]. injection E as _ _ ->. left. reflexivity.
             - destruct (oltb ROOps _ _); [|injection E as _ _ ->; left; reflexivity].
+              destruct (_ || _); [injection E as _ _ ->; left; reflexivity|].
               destruct (oltb ROOps _ _); (destruct (IHf _ _ _ E) as [H | H]; [right; eexists; injection H as <-; reflexivity | right; exact H]). }
           destruct (Gen _ _ _ _ Eb) as [H | H]; [|exact H].
           injection H as <-. eexists. exact Exng. }
